@@ -48,6 +48,8 @@ def sizes():
 def close_case(c):
     if c.engine in ("st_mtc", "st_mtr"):
         return c
+    if c.engine in ("so_reu", "so_stk"):
+        return close_obj(Case(c.engine, c.name, [o for o in c.ops if not (len(o) == 2 and o[0] == 7)], c.meta))
     ops = [o for o in c.ops if o != [9]] if c.meta.get("strip_destroy") else list(c.ops)
     slots = []
     for o in ops:
@@ -226,7 +228,7 @@ def nontrivial(case, model_obs):
         return sum(1 for a, b in zip(tids, tids[1:]) if a != b) >= 3
     creates = 0
     for o, l in zip(case.ops, model_obs):
-        if o and o[0] == 1 and l.split()[0] == "0":
+        if o and o[0] == 1 and l.split()[0] == "0" and len(l.split()) > 1:
             creates += 1
     return creates >= 3
 
@@ -246,5 +248,69 @@ def signature(case, impl_obs, model_obs):
     return "%s:%s" % (case.engine, kind)
 
 
+# ---------------------------------------------------------------- storage objects as values (so_reu, so_stk)
+def close_obj(c):
+    ops = list(c.ops)
+    slots = []
+    for o in ops:
+        if len(o) == 5 and o[0] == 1 and o[1] not in slots: slots.append(o[1])
+    return Case(c.engine, c.name, ops + [[2, s] for s in slots] + [[7, j] for j in range(8)], c.meta)
+
+
+def gen_obj(seed, tier):
+    xs, tbl = sizes()
+    order = sorted(tbl, key=lambda k: (tbl[k], k))
+    rng = random.Random(seed * 7368787 + 77)
+    n = 160 if tier == "quick" else 2500
+    cases = []
+    def cr(slot, j, pos): return [1, slot, j, order[pos], tbl[order[pos]]]
+    b = 0
+    # aimed programs
+    for lo in (0, 3, 9, 14):
+        for hi in (lo + 1, lo + 6, len(order) - 1):
+            hi = min(hi, len(order) - 1)
+            # target owns a small block, source a big one; assign; reuse both, the moved-from one for a big frame
+            cases.append(close_obj(Case("so_reu", "ob%d" % b, [[4, 0], [4, 1], cr(0, 0, lo), [2, 0], cr(0, 1, hi), [2, 0], [5, 0, 1],
+                                   cr(1, 1, hi), [2, 1], cr(2, 0, hi), [2, 2], cr(3, 1, lo), [2, 3], [6, 2, 0], cr(0, 2, hi), [2, 0], cr(1, 0, hi), [2, 1]]))); b += 1
+            cases.append(close_obj(Case("so_reu", "ob%d" % b, [[4, 0], [4, 1], cr(0, 0, hi), [2, 0], cr(0, 1, lo), [2, 0], [5, 0, 1],
+                                   cr(1, 1, hi), [2, 1], cr(2, 0, hi), [2, 2], [5, 1, 0], cr(3, 0, lo), cr(4, 1, hi), [2, 3], [2, 4]]))); b += 1
+            for a in (0, tbl[order[lo]] + 1, tbl[order[lo]], tbl[order[hi]] + 1):
+                # one object: small, big (learns), big again; two objects reserved before the learning
+                cases.append(close_obj(Case("so_stk", "ob%d" % b, [[0, a], [4, 0], cr(0, 0, lo), [2, 0], cr(0, 0, hi), [2, 0], cr(0, 0, hi), [2, 0],
+                                       [4, 1], cr(1, 1, hi), cr(2, 0, lo), [2, 1], [2, 2]]))); b += 1
+                cases.append(close_obj(Case("so_stk", "ob%d" % b, [[0, a], [4, 0], [4, 1], cr(0, 0, hi), cr(1, 1, hi), [2, 0], [2, 1], cr(0, 1, lo), cr(1, 0, hi),
+                                       [4, 2], cr(2, 2, hi), [2, 0], [2, 1], [2, 2]]))); b += 1
+    for i in range(n):
+        eng = "so_reu" if i % 2 else "so_stk"
+        ops = [[0, rng.choice([0, 0, 50, tbl[rng.choice(order)] + 1])]] if eng == "so_stk" else []
+        objs, live = set(), {}
+        base = rng.randrange(len(order))
+        for _ in range(rng.randint(6, 28)):
+            r = rng.random()
+            freeo = [j for j in range(4) if j not in objs]
+            idle = [j for j in objs if j not in live.values()]
+            if (not objs or r < 0.12) and freeo:
+                j = rng.choice(freeo); ops.append([4, j]); objs.add(j)
+            elif r < 0.55 and idle:
+                j = rng.choice(idle)
+                slot = rng.choice([s for s in range(6) if s not in live] or [0])
+                base = min(len(order) - 1, max(0, base + rng.choice([-6, -2, 0, 0, 2, 6, 12])))
+                ops.append(cr(slot, j, base))
+                if slot not in live: live[slot] = j
+            elif r < 0.75 and live:
+                slot = rng.choice(sorted(live)); ops.append([2, slot]); del live[slot]
+            elif r < 0.85 and eng == "so_reu" and len(idle) >= 2:
+                j, i2 = rng.sample(idle, 2); ops.append([5, j, i2])
+            elif r < 0.90 and eng == "so_reu" and idle and freeo:
+                j = rng.choice(freeo); ops.append([6, j, rng.choice(idle)]); objs.add(j)
+            elif r < 0.95 and idle:
+                j = rng.choice(idle); ops.append([7, j]); objs.discard(j)
+            elif rng.random() < 0.3:
+                ops.append(rng.choice([[5, 0, 0], [7, 9], [2, 40], [8, 1], [1, 0, 7, 0, 96], [6, 0, 5]]))   # malformed / refused
+        cases.append(close_obj(Case(eng, "o%d" % i, ops)))
+    return cases
+
+
 PARTS = [{"name": "seq_storage", "harness": "seq_storage.cpp", "gen": gen},
-         {"name": "ctl_storage", "harness": "ctl_storage.cpp", "gen": gen_mt, "timeout_case": 10}]
+         {"name": "ctl_storage", "harness": "ctl_storage.cpp", "gen": gen_mt, "timeout_case": 10},
+         {"name": "seq_storobj", "harness": "seq_storobj.cpp", "gen": gen_obj}]
